@@ -4,6 +4,8 @@ import (
 	"go/ast"
 	"go/types"
 	"strings"
+
+	"golang.org/x/tools/go/ssa"
 )
 
 // KINDNAME: the protobuf scalar primitives are named after the kind they implement
@@ -15,7 +17,7 @@ import (
 func init() {
 	register(&Rule{
 		Name:     "KINDNAME",
-		Doc:      "in every clause of a switch over proto.Type / ProtoKind that is labelled with a single scalar kind, each called primitive of proto/binary or proto/protowire whose name is <Decode|Read|Write|Encode|Append|Consume><Kind> names the label's kind (ENUM uses the Int32 primitives; BYTE/STRING share Bytes/String): DecodeUint32 in the ENUM or INT32 clause turns -1 into 4294967295 although both are varints",
+		Doc:      "in every clause of a switch over proto.Type / ProtoKind that is labelled with scalar kinds only, each called primitive of proto/binary or proto/protowire whose name is <Decode|Read|Write|Encode|Append|Consume><Kind> names the kind of every label of the clause (ENUM uses the Int32 primitives; BYTE/STRING share Bytes/String; a clause grouping INT32 and INT64 that does not dispatch again on the kind inside may not call a 32-bit primitive); (b) a constructor NewNode<Kind> of proto/generic encodes with the Encode<Kind> primitive: DecodeUint32 in the ENUM or INT32 clause turns -1 into 4294967295 although both are varints",
 		Configs:  "NP",
 		Floor:    map[string]int{"N": 60, "P": 60},
 		Controls: 1,
@@ -48,18 +50,93 @@ func runKindName(rc *RuleCtx) {
 		}
 		return k
 	}
+	// clause (b): NewNode<Kind> constructors
+	for _, fn := range rc.W.Funcs {
+		if pkgRel(fn) != "proto/generic" || fn.Blocks == nil || !strings.HasPrefix(fn.Name(), "NewNode") {
+			continue
+		}
+		ck := kindKey(strings.TrimPrefix(fn.Name(), "NewNode"))
+		if ck == "BYTES" {
+			ck = "BYTE"
+		}
+		if _, ok := kindSpec[ck]; !ok {
+			continue
+		}
+		for _, b := range fn.Blocks {
+			for _, ins := range b.Instrs {
+				c, ok := ins.(*ssa.Call)
+				if !ok {
+					continue
+				}
+				cal := c.Call.StaticCallee()
+				if cal == nil || !(pkgRel(cal) == "proto/protowire" || pkgRel(cal) == "proto/binary") {
+					continue
+				}
+				pk, ok := primKind(cal.Name())
+				if !ok {
+					continue
+				}
+				rc.Examined++
+				good := norm(pk) == norm(ck)
+				rc.verdict(good, fn, "constructor calls "+cal.Name(), c.Pos(), map[bool]string{
+					true:  "the constructor encodes with the primitive of its own kind",
+					false: fn.Name() + " encodes its value with " + cal.Name() + ", the primitive of another kind: the node says " + ck + " but its bytes are not a " + ck + " value"}[good], false)
+			}
+		}
+	}
 	for _, ks := range rc.W.kindSwitches(1) {
 		if !(strings.HasSuffix(ks.tagType, "proto.Type") || strings.HasSuffix(ks.tagType, "ProtoKind") || strings.HasSuffix(ks.tagType, "proto.ProtoKind")) {
 			continue
 		}
 		info := ks.pkg.TypesInfo
 		for _, cl := range ks.clauses {
-			if len(cl.labels) != 1 {
+			if len(cl.labels) == 0 {
 				continue
 			}
+			// all labels must be scalar kinds; a clause that groups several kinds may only call primitives
+			// whose kind every label normalises to (a width-specific primitive under `case Int32Kind, Int64Kind:` truncates)
 			lk := kindKey(cl.labels[0].name)
-			if _, ok := kindSpec[lk]; !ok {
+			allScalar := true
+			sameKind := true
+			for _, l := range cl.labels {
+				k := kindKey(l.name)
+				if _, ok := kindSpec[k]; !ok {
+					allScalar = false
+				}
+				if norm(k) != norm(lk) {
+					sameKind = false
+				}
+			}
+			if !allScalar {
 				continue
+			}
+			if !sameKind {
+				// a grouping clause may dispatch again inside (`if t == proto.UINT32 {…}`): then the calls are
+				// selected by that inner test, which this rule does not evaluate
+				inner := false
+				for _, st := range cl.body {
+					ast.Inspect(st, func(n ast.Node) bool {
+						if id, ok := n.(*ast.Ident); ok {
+							for _, l := range cl.labels {
+								if id.Name == l.name {
+									inner = true
+								}
+							}
+						}
+						return !inner
+					})
+				}
+				if inner {
+					continue
+				}
+			}
+			labelText := cl.labels[0].name
+			if len(cl.labels) > 1 {
+				var ns []string
+				for _, l := range cl.labels {
+					ns = append(ns, l.name)
+				}
+				labelText = strings.Join(ns, ", ")
 			}
 			for _, st := range cl.body {
 				ast.Inspect(st, func(n ast.Node) bool {
@@ -84,10 +161,10 @@ func runKindName(rc *RuleCtx) {
 						return true
 					}
 					rc.Examined++
-					good := norm(pk) == norm(lk)
-					rc.add(nil, ks.fnName, "case "+cl.labels[0].name+": "+sel.Sel.Name, ce.Pos(), map[bool]string{true: "discharged", false: "violated"}[good],
+					good := sameKind && norm(pk) == norm(lk)
+					rc.add(nil, ks.fnName, "case "+labelText+": "+sel.Sel.Name, ce.Pos(), map[bool]string{true: "discharged", false: "violated"}[good],
 						map[bool]string{true: "the primitive is the one named after the clause's kind",
-							false: "the clause for " + cl.labels[0].name + " calls " + sel.Sel.Name + ", the primitive of another kind: same wire form, different signedness / width"}[good], false)
+							false: "the clause for " + labelText + " calls " + sel.Sel.Name + ", a primitive that is not the one of (every one of) its kinds: same wire form, different signedness / width"}[good], false)
 					return true
 				})
 			}
